@@ -46,6 +46,7 @@ import r53_excess
 import r54_continuation
 import r55_implicit
 import r56_fftnorm
+import r57_roleslot
 import r06_validate
 import r07_cache
 import r08_toporder
@@ -256,6 +257,10 @@ def r55(ctx, prop):
 
 def r56(ctx, prop):
     return r56_fftnorm.run(ctx.F())
+
+
+def r57(ctx, prop):
+    return r57_roleslot.run(ctx.F())
 
 
 def r43(ctx, prop):
@@ -497,7 +502,7 @@ def r12(ctx, prop):
 
 PROPERTY_RULES = {
     "C08": [r10_wrapper, r11, r2, r20, r21, r25, r27, r37, r38, r40, r44, r20b],
-    "C09": [r12, r18, r20, r10_wrapper, r30, r38, r40, r20b],
+    "C09": [r12, r18, r20, r10_wrapper, r30, r38, r40, r20b, r14],
     "C02": [r3, r7, r39, r40, r1_sinks, r20b],
     "C10": [r10_selector, r8, r1_idealgas, r3, r19, r25, r29, r10_selconst, r1_guard_idealgas, r44],
     "C14": [r14, r13, r10_identifier, r21, r27, r28, r38, r40, r47, r20b, r49],
@@ -512,7 +517,7 @@ PROPERTY_RULES = {
     "C11": [r9, r7],
     "C03": [r6, r17, r4, r5, r25, r24, r26, r31, r40, r43, r44],
     "C04": [r4, r16, r25, r24, r26, r31, r10_selconst, r40, r46],
-    "C05": [r4, r5, r16, r25, r24, r26, r31, r10_selconst, r39, r40, r43, r44, r46],
+    "C05": [r4, r5, r16, r25, r24, r26, r31, r10_selconst, r39, r40, r43, r44, r46, r57],
     "C06": [r4, r1_all, r21, r25, r24, r26, r28, r31, r39, r40, r20b, r50],
     "C07": [r5, r4, r25, r24, r26, r31, r10_selconst, r40, r43, r46],
     "C18": [r4, r16, r25, r24, r26, r35, r39, r40, r42, r44, r45],
